@@ -119,33 +119,47 @@ namespace ExpectCalc
 open GoblVerif.Generated.Calc
 
 theorem calls_Line_round_as_modelled : calls_Line_round =
-    ["Exp", "RescaleDown", "Exp", "RescaleDown", "round", "round", "round", "round"] := by decide
+    ["Exp", "RescaleDown", "Exp", "RescaleDown", "round", "round", "round", "round"] := rfl
 theorem conds_Line_round_as_modelled : conds_Line_round =
-    ["l.Item == nil || l.Item.Price == nil", "l.Sum != nil", "l.Total != nil"] := by decide
+    ["l.Item == nil || l.Item.Price == nil", "l.Sum != nil", "l.Total != nil"] := rfl
+theorem stmts_Line_round_as_modelled : stmts_Line_round =
+    ["e := l.Item.Price.Exp()", "sum := l.Sum.RescaleDown(e)", "l.Sum = &sum", "e := l.Item.Price.Exp()", "total := l.Total.RescaleDown(e)", "l.Total = &total"] := rfl
 theorem calls_SubLine_round_as_modelled : calls_SubLine_round =
-    ["RescaleDown", "RescaleDown"] := by decide
+    ["RescaleDown", "RescaleDown"] := rfl
 theorem conds_SubLine_round_as_modelled : conds_SubLine_round =
-    ["sl.Sum != nil", "sl.Total != nil"] := by decide
+    ["sl.Sum != nil", "sl.Total != nil"] := rfl
+theorem stmts_SubLine_round_as_modelled : stmts_SubLine_round =
+    ["sum := sl.Sum.RescaleDown(e)", "sl.Sum = &sum", "total := sl.Total.RescaleDown(e)", "sl.Total = &total"] := rfl
 theorem calls_LineDiscount_round_as_modelled : calls_LineDiscount_round =
-    ["RescaleDown"] := by decide
+    ["RescaleDown"] := rfl
 theorem conds_LineDiscount_round_as_modelled : conds_LineDiscount_round =
-    [] := by decide
+    [] := rfl
+theorem stmts_LineDiscount_round_as_modelled : stmts_LineDiscount_round =
+    ["d.Amount = d.Amount.RescaleDown(e)"] := rfl
 theorem calls_LineCharge_round_as_modelled : calls_LineCharge_round =
-    ["RescaleDown"] := by decide
+    ["RescaleDown"] := rfl
 theorem conds_LineCharge_round_as_modelled : conds_LineCharge_round =
-    [] := by decide
+    [] := rfl
+theorem stmts_LineCharge_round_as_modelled : stmts_LineCharge_round =
+    ["c.Amount = c.Amount.RescaleDown(e)"] := rfl
 theorem calls_Discount_round_as_modelled : calls_Discount_round =
-    ["Def", "Exp", "Exp", "RescaleDown"] := by decide
+    ["Def", "Exp", "Exp", "RescaleDown"] := rfl
 theorem conds_Discount_round_as_modelled : conds_Discount_round =
-    ["m.Base != nil && m.Base.Exp() > e"] := by decide
+    ["m.Base != nil && m.Base.Exp() > e"] := rfl
+theorem stmts_Discount_round_as_modelled : stmts_Discount_round =
+    ["e := cur.Def().Subunits", "e = m.Base.Exp()", "m.Amount = m.Amount.RescaleDown(e)"] := rfl
 theorem calls_Charge_round_as_modelled : calls_Charge_round =
-    ["Def", "Exp", "Exp", "RescaleDown"] := by decide
+    ["Def", "Exp", "Exp", "RescaleDown"] := rfl
 theorem conds_Charge_round_as_modelled : conds_Charge_round =
-    ["m.Base != nil && m.Base.Exp() > e"] := by decide
+    ["m.Base != nil && m.Base.Exp() > e"] := rfl
+theorem stmts_Charge_round_as_modelled : stmts_Charge_round =
+    ["e := cur.Def().Subunits", "e = m.Base.Exp()", "m.Amount = m.Amount.RescaleDown(e)"] := rfl
 theorem calls_Totals_reset_as_modelled : calls_Totals_reset =
-    [] := by decide
+    [] := rfl
 theorem conds_Totals_reset_as_modelled : conds_Totals_reset =
-    [] := by decide
+    [] := rfl
+theorem stmts_Totals_reset_as_modelled : stmts_Totals_reset =
+    ["t.Sum = zero", "t.Discount = nil", "t.Charge = nil", "t.TaxIncluded = nil", "t.Total = zero", "t.Taxes = nil", "t.Tax = zero", "t.TotalWithTax = zero", "t.Payable = zero", "t.Advances = nil", "t.Due = nil"] := rfl
 
 end ExpectCalc
 
